@@ -370,6 +370,14 @@ impl Parser {
         });
 
         if let Some(collision) = &name_is_collision {
+            if collision.is_const() {
+                return Err(vec![new_err(
+                    name.unwrap().1,
+                    &input.user_data().get_source_file_name(),
+                    format!("cannot reuse \"{}\" as the loop counter: it is a `const` variable and the loop would reassign it", collision.name()),
+                )]);
+            }
+
             if !collision.ty().unwrap().eq_complex(
                 &step_output_type,
                 &TypecheckFlags::<&ClassType>::classless(),
